@@ -68,7 +68,12 @@ def handle : List String → String
     match text? txt, optNat? m with
     | some t, some m =>
       let a := cls Bech32.Err.cls (Bech32.decode t m) fun (h, d) => s!"{textHex h} {nats d}"
-      let r := match Bech32Ref.decode t with
+      -- known finding `bech32.hrp-range`: BIP173 allows HRP characters 33..126, btclib 48..122
+      let deviates := match Bech32.splitLast 49 t with
+        | some (pre, _) => pre.any fun c => 33 ≤ c && c ≤ 126 && !(47 < c && c < 123)
+        | none => false
+      let r := if deviates then "ref hrp-range-known" else
+        match Bech32Ref.decode t with
         | some (h, d, spec) => s!"ref {textHex h} {nats d} {specName spec}"
         | none => "ref none"
       s!"{a} | {r}"
